@@ -52,7 +52,9 @@ def run_traced(case, trace_arg, repeat=1, entry='solve_t', reset=False):
     tags = []
     with warnings.catch_warnings():
         warnings.simplefilter('ignore')
-        for _ in range(repeat):
+        for r_ in range(repeat):
+            if r_ and case.get('copy_between'):
+                m = m.copy()            # a repeated solve may just as well happen on a copy: same observable object
             try:
                 if entry == 'solve_t':
                     r = m.solve_t(case['t'], trace=trace_arg, reset=reset, **kw)
@@ -71,7 +73,9 @@ def run_untraced(case, repeat=1):
     tags = []
     with warnings.catch_warnings():
         warnings.simplefilter('ignore')
-        for _ in range(repeat):
+        for r_ in range(repeat):
+            if r_ and case.get('copy_between'):
+                m = m.copy()
             try:
                 r = m.solve_t(case['t'], **kw)
                 tags.append('ret:T' if r else 'ret:F')
@@ -166,7 +170,9 @@ def _work(ctx, rep):
         if case['opts']['min_iter'] > case['opts']['max_iter'] and rng.random() < 0.8:
             continue   # keep a few rejected calls, not most of the stream
         trace_arg, idx = variants(rng, case['nE'])
-        repeat = 2 if rng.random() < 0.15 else 1
+        repeat = 2 if rng.random() < 0.25 else 1
+        if repeat == 2 and rng.random() < 0.4:
+            case['copy_between'] = True
         entry = 'solve_period' if rng.random() < 0.2 else 'solve_t'
         reset = rng.random() < 0.25
         s, mt, tags = oracle(case, trace_arg, idx, repeat, entry, rep, reset)
